@@ -322,6 +322,12 @@ struct XParse : Engine {
         // same result with and without a return_parse_end argument, and across entry points
         if (R[0].ok != R[2].ok || R[1].ok != R[3].ok || (nres > 4 && R[4].ok != R[0].ok)) { V("endptr", "result-depends-on-endptr-arg", "success differs between calls with and without return_parse_end / plain entry point"); V("decode", "entry-points-disagree", "entry points disagree on acceptance"); }
         for (int i = 1; i < nres; i++) if (R[i].ok && R[0].ok && R[i].text != R[0].text) { V("decode", "entry-points-disagree", std::string(labels[i]) + ": tree differs from " + labels[0]); V("endptr", "tree-differs", std::string(labels[i]) + ": tree differs from " + labels[0]); }
+        // the reported end is the end of the first value (independent scanner): neither short of it nor swallowing bytes behind it
+        if (R[0].ok && R[0].end != SENT() && R[0].end >= start && R[0].end <= start + n) {
+            bool bom = n >= 3 && bytes[0] == 0xEF && bytes[1] == 0xBB && bytes[2] == 0xBF;
+            long le = L_value_end(bytes, n, bom), le2 = bom ? L_value_end(bytes, n, false) : le;
+            if (le >= 0 && (R[0].end - start) != le && (R[0].end - start) != le2) V("endptr", "end-not-at-value-end", std::string(labels[0]) + ": parse end at offset " + std::to_string(R[0].end - start) + " but the first value ends at offset " + std::to_string(le));
+        }
         // requiring termination: succeeds exactly when the non-requiring parse succeeds and only whitespace then NUL follows
         if (R[0].ok && R[0].end != SENT() && R[0].end >= start && R[0].end <= start + n) {
             int cls = 0; tail_strict_ok(bytes, (size_t)(R[0].end - start), n, &cls);
